@@ -375,6 +375,7 @@ def generic_rules(ctx, rule='RG'):
     n += fresh_packet_rules(ctx, rule, paths, only)
     n += consumed_argument_rules(ctx, rule, paths, only)
     n += blocking_under_lock_rules(ctx, rule, paths, only)
+    n += language_pitfall_rules(ctx, rule, paths, only)
     return n
 
 
@@ -608,3 +609,69 @@ def straightline_paths(func, limit=64, with_env=False, skip_calls=False):
     if with_env:
         return [(c_, r_, e_) for (c_, r_), e_ in zip(out, envs)]
     return out
+
+
+IMMEDIATE_CONSUMERS = {'map', 'filter', 'sorted', 'min', 'max', 'sum', 'any', 'all', 'list', 'tuple', 'next', 'reduce', 'functools.reduce'}
+
+
+def language_pitfall_rules(ctx, rule, paths, only=None):
+    """Three conditions that are independent of the property and cheap to state exactly:
+    * a comparison by identity with a number / string / bytes / tuple literal (`x is 0`, `s is not ''`) asks whether two objects are
+      the same object, which for equal values is an accident of the interpreter (small-int and string caches);
+    * a lambda / nested function created in a loop that reads the loop variable and is handed to something that runs it later (a
+      thread, a timer, a callback list) sees the variable's LAST value (late binding) - unless the value is bound at creation
+      (default argument, functools.partial);
+    * `return` / `break` / `continue` inside `finally` swallows whatever exception was on its way."""
+    m = ctx.model
+    n = 0
+    for path in paths:
+        for f in m.mod(path).all_funcs():
+            if only is not None and (path, f.qualname) not in only:
+                continue
+            bad_is = []
+            for c in walk_own(f.node):
+                if isinstance(c, ast.Compare):
+                    ops = [c.left] + list(c.comparators)
+                    for op, a, b in zip(c.ops, ops, ops[1:]):
+                        if isinstance(op, (ast.Is, ast.IsNot)):
+                            for x in (a, b):
+                                if (isinstance(x, ast.Constant) and not isinstance(x.value, bool) and x.value is not None and x.value is not Ellipsis) or \
+                                        (isinstance(x, (ast.Tuple, ast.List, ast.Dict, ast.Set, ast.JoinedStr))):
+                                    bad_is.append('%s (line %d)' % (norm(c)[:50], c.lineno))
+            n += 1
+            ctx.inst(rule, f, 'no-identity-test-with-a-literal', not bad_is, 'identity comparison with a literal value: %s - equal values need not be the same object' % bad_is)
+            late = []
+            for loop in [l for l in walk_own(f.node) if isinstance(l, ast.For)]:
+                lvars = {x.id for x in ast.walk(loop.target) if isinstance(x, ast.Name)}
+                # names (re)bound in the loop body count as per-iteration values too
+                for st in loop.body:
+                    for x in walk_own(st):
+                        if isinstance(x, ast.Name) and isinstance(x.ctx, ast.Store):
+                            lvars.add(x.id)
+                for st in loop.body:
+                    for call in [c for c in ast.walk(st) if isinstance(c, ast.Call)]:
+                        callee = dotted(call.func) or ''
+                        if callee in IMMEDIATE_CONSUMERS:
+                            continue
+                        for a in list(call.args) + [k.value for k in call.keywords]:
+                            if isinstance(a, ast.Lambda):
+                                own = {p.arg for p in a.args.args + a.args.kwonlyargs} | ({a.args.vararg.arg} if a.args.vararg else set())
+                                free = {x.id for x in ast.walk(a.body) if isinstance(x, ast.Name) and isinstance(x.ctx, ast.Load)} - own
+                                hit = sorted(free & lvars)
+                                # only deferred execution matters: the callee keeps the callable (thread, timer, callback registration)
+                                deferred = callee.split('.')[-1] in ('Thread', 'Timer', 'add_callback', 'add_port_callback', 'add_header_callback', 'submit', 'call_later', 'append', 'put')
+                                if hit and deferred:
+                                    late.append('lambda reading %s handed to %s (line %d)' % (hit, callee, call.lineno))
+            n += 1
+            ctx.inst(rule, f, 'no-late-binding-closure-in-loop', not late, 'a callable created in a loop and run later reads the loop variables when it runs, not when it was made: %s' % late)
+            fin = []
+            for t in [t for t in walk_own(f.node) if isinstance(t, ast.Try) and t.finalbody]:
+                for st in t.finalbody:
+                    for x in walk_own(st):
+                        if isinstance(x, ast.Return):
+                            fin.append('return in finally (line %d)' % x.lineno)
+                        if isinstance(x, (ast.Break, ast.Continue)) and not any(isinstance(l, (ast.For, ast.While)) and any(y is x for y in ast.walk(l)) for l in walk_own(st)):
+                            fin.append('%s in finally (line %d)' % (type(x).__name__.lower(), x.lineno))
+            n += 1
+            ctx.inst(rule, f, 'finally-does-not-swallow', not fin, 'leaving a finally block with return / break / continue discards the exception in flight: %s' % fin)
+    return n
